@@ -45,6 +45,10 @@ class OutOfBounds(AnalysisBroken):
     """a store or load outside a local array of the interpreted function"""
 
 
+class UndefinedShift(AnalysisBroken):
+    """a shift whose count is negative or not smaller than the width of the (promoted) left operand"""
+
+
 class Ref:
     """address of a scalar local (`&x`): loads and stores go to the variable"""
     __slots__ = ('env', 'name')
@@ -80,14 +84,55 @@ def _mask(t, v):
     return v & m if m is not None and isinstance(v, int) else v
 
 
+def _is_vec2(t):
+    return (t or '').replace('const ', '').replace('gdstk::', '').replace('&', '').strip() == 'Vec2'
+
+
+def _vec2_op(op, vals):
+    """the operators of include/gdstk/vec.hpp on Obj(x, y) values (component-wise; comparisons lexicographic)"""
+    isv = [isinstance(v, Obj) and 'x' in v for v in vals]
+    if not any(isv):
+        return None
+    if len(vals) == 1 and op == '-':
+        return Obj(x=-vals[0]['x'], y=-vals[0]['y'])
+    if len(vals) != 2:
+        return None
+    a, b = vals
+    if all(isv):
+        if op == '==':
+            return int(a['x'] == b['x'] and a['y'] == b['y'])
+        if op == '!=':
+            return int(a['x'] != b['x'] or a['y'] != b['y'])
+        if op in ('+', '-', '*'):
+            import operator as O
+            f = {'+': O.add, '-': O.sub, '*': O.mul}[op]
+            return Obj(x=f(a['x'], b['x']), y=f(a['y'], b['y']))
+        if op == '<':
+            return int(a['x'] < b['x'] or (a['x'] == b['x'] and a['y'] < b['y']))
+        if op == '>':
+            return int(a['x'] > b['x'] or (a['x'] == b['x'] and a['y'] > b['y']))
+        return None
+    if op in ('+', '-', '*', '/'):
+        import operator as O
+        from fractions import Fraction
+        f = {'+': O.add, '-': O.sub, '*': O.mul, '/': lambda p_, q_: Fraction(p_) / Fraction(q_)}[op]
+        if isv[0]:
+            return Obj(x=f(a['x'], b), y=f(a['y'], b))
+        if op != '/':
+            return Obj(x=f(a, b['x']), y=f(a, b['y']))
+    return None
+
+
 class Obj(dict):
     """a struct object handed to the interpreted code by pointer or reference: `p->f` / `r.f` read the entry f"""
     __hash__ = object.__hash__
 
 
 class Mini:
-    def __init__(self, db, hook=None, members=None, budget=20000, typed=None, member_store=False, c_ints=False):
+    def __init__(self, db, hook=None, members=None, budget=20000, typed=None, member_store=False, c_ints=False, globals=None):
         self.db = db
+        self.globals = globals or {}       # namespace-scope variables (visible in called helpers too)
+        self.obj_store = False             # stores to fields of struct objects reached through pointers / `this` are allowed
         self.hook = hook or (lambda callee, args, node: None)
         self.members = members or {}       # normalised member-expression text -> value
         self.budget = budget
@@ -142,6 +187,8 @@ class Mini:
                 return v_
             if self._typed(e) is not None:
                 return self._typed(e)
+            if e.n in self.globals and e.dk not in ('local', 'param'):
+                return self.globals[e.n]
             if e.dk in ('static', 'local') and '[' in (e.ct or e.t or '') and 'const' in (e.t or ''):
                 # a constant lookup table declared in the function (`static const T table[] = {...}`): its initialiser
                 vd = next((v for v in e.fn.walk() if v.k == 'VarDecl' and v.d == e.d and v.child('init') is not None), None)
@@ -163,6 +210,8 @@ class Mini:
             if self._typed(e) is not None:
                 return self._typed(e)
             b = e.child('base')
+            while b is not None and b.k == 'MemberExpr' and not b.n and b.child('base') is not None:
+                b = b.child('base')          # members of anonymous structs / unions belong to the enclosing object
             if b is not None and e.n:
                 try:
                     bv = self.ev(b, env)
@@ -170,8 +219,12 @@ class Mini:
                     bv = None
                 if isinstance(bv, Ref):
                     bv = bv.env.get(bv.name)
+                if isinstance(bv, Ptr):
+                    bv = self.load(bv)          # p->f
                 if isinstance(bv, Obj) and e.n in bv:
                     return bv[e.n]
+                if isinstance(bv, Obj) and self.obj_store:
+                    return 0                    # a field of a zero-initialised / not yet written struct object
             raise AnalysisBroken('mini-interpreter: unbound member `%s`' % t)
         if k == 'ParenExpr':
             return self.ev(e.c[0], env)
@@ -194,6 +247,14 @@ class Mini:
                 raise AnalysisBroken('mini-interpreter: address of `%s`' % t.text()[:40])
             if op in ('++', '--', 'post++', 'post--'):
                 t = _strip_casts(e.child('sub'))
+                if t.k == 'MemberExpr' and self.obj_store:
+                    lv = self.lval_obj(t, env)
+                    if lv is not None:
+                        o_, f_ = lv
+                        old = o_.get(f_, 0)
+                        d = 1 if '+' in op else -1
+                        o_[f_] = Ptr(old.arr, old.i + d) if isinstance(old, Ptr) else _mask(t.ct or t.t, old + d)
+                        return old if op.startswith('post') else o_[f_]
                 if t.k != 'DeclRefExpr':
                     raise AnalysisBroken('mini-interpreter: increment of `%s`' % t.text()[:40])
                 old = env[t.n]
@@ -243,6 +304,11 @@ class Mini:
                  '<': O.lt, '>': O.gt, '<=': O.le, '>=': O.ge, '==': O.eq, '!=': O.ne}.get(op)
             if f is None:
                 raise AnalysisBroken('mini-interpreter: operator %s' % op)
+            if self.c_ints and op in ('<<', '>>') and isinstance(a, int) and isinstance(b, int):
+                t_ = (e.ct or e.t or '').replace('const ', '').strip()
+                width = 64 if _UMASK.get(t_) == 0xFFFFFFFFFFFFFFFF or _SBITS.get(t_) == 64 else 32
+                if b < 0 or b >= width:
+                    raise UndefinedShift('`%s` shifts a %d-bit operand by %d' % (e.text()[:60], width, b))
             r_ = f(a, b)
             from fractions import Fraction
             if isinstance(r_, Fraction) and r_.denominator != 1:
@@ -257,6 +323,32 @@ class Mini:
                 r = self.ev(e.child('rhs'), env)
                 self.members[' '.join(t.text().split())] = r
                 return r
+            if t.k == 'MemberExpr' and t.n and self.obj_store:
+                lv = self.lval_obj(t, env)
+                if lv is not None:
+                    o_, f_ = lv
+                    r = self.ev(e.child('rhs'), env)
+                    if e.op != '=':
+                        import operator as O
+                        r = {'+=': O.add, '-=': O.sub, '*=': O.mul, '|=': O.or_, '&=': O.and_}[e.op](o_.get(f_, 0), r)
+                    o_[f_] = Obj(r) if isinstance(r, Obj) else _mask(t.ct or t.t, r)
+                    return r
+            if t.k == 'MemberExpr' and t.n:
+                # a field of a struct object held in a local (or handed in by non-const reference)
+                b_ = t.child('base')
+                while b_ is not None and b_.k == 'MemberExpr' and not b_.n and b_.child('base') is not None:
+                    b_ = b_.child('base')
+                b0 = _strip_casts(b_)
+                o_ = env.get(b0.n) if b0 is not None and b0.k == 'DeclRefExpr' and b0.dk in ('local', 'param') and 'const' not in (b0.t or '') else None
+                if isinstance(o_, Ref):
+                    o_ = o_.env.get(o_.name)
+                if isinstance(o_, Obj):
+                    r = self.ev(e.child('rhs'), env)
+                    if e.op != '=':
+                        import operator as O
+                        r = {'+=': O.add, '-=': O.sub, '*=': O.mul}[e.op](o_[t.n], r)
+                    o_[t.n] = r
+                    return r
             if t.k in ('UnaryOperator', 'ArraySubscriptExpr') and (t.k == 'ArraySubscriptExpr' or t.op == '*'):
                 # store through a pointer into an array declared by the interpreted code itself
                 if t.k == 'UnaryOperator':
@@ -295,14 +387,74 @@ class Mini:
                     r = Ptr(cur.arr, cur.i + (r if e.op == '+=' else -r))
                 else:
                     r = {'+=': O.add, '-=': O.sub, '*=': O.mul, '|=': O.or_, '&=': O.and_, '^=': O.xor, '<<=': O.lshift, '>>=': O.rshift}[e.op](cur, r)
-            tgt_env[tgt_name] = r
+            tgt_env[tgt_name] = Obj(r) if isinstance(r, Obj) and e.op == '=' else r
             return r
+        if k in ('CXXScalarValueInitExpr', 'ImplicitValueInitExpr') or (k == 'InitListExpr' and not [c for c in e.c if c is not None] and not _is_vec2(e.t)):
+            return 0
+        if k == 'CXXThisExpr':
+            return env.get('this', ('opaque', 'this'))
+        if k in ('CXXConstructExpr', 'CXXTemporaryObjectExpr', 'MaterializeTemporaryExpr', 'CXXBindTemporaryExpr', 'ExprWithCleanups', 'CXXFunctionalCastExpr', 'CompoundLiteralExpr') or (k == 'InitListExpr' and _is_vec2(e.t)):
+            a = [c for c in e.c if c is not None]
+            while k == 'InitListExpr' and len(a) == 1 and a[0].k == 'InitListExpr':
+                a = [c for c in a[0].c if c is not None]        # {{{x, y}}}: the anonymous union and struct around the coordinates
+            if len(a) == 1 and k != 'InitListExpr':
+                v = self.ev(a[0], env)
+                return Obj(v) if isinstance(v, Obj) else v        # struct copy
+            if not a and self.obj_store and not _is_vec2(e.t):
+                return Obj()                    # `T local;` of a record type: fields are written before they are read
+            if _is_vec2(e.t) and len(a) in (0, 2):
+                return Obj(x=self.ev(a[0], env), y=self.ev(a[1], env)) if a else Obj(x=0, y=0)
+            raise AnalysisBroken('mini-interpreter: construction `%s`' % e.text()[:50])
+        if k == 'CXXOperatorCallExpr' and not is_assign(e):
+            ops_ = e.args
+            name = (e.callee or '').split('::')[-1]
+            if name == 'operator[]' and len(ops_) == 2:
+                b, i = self.ev(ops_[0], env), self.ev(ops_[1], env)
+                if isinstance(b, Obj) and isinstance(b.get('items'), Ptr):
+                    if not (0 <= i < b.get('count', len(b['items'].arr))):
+                        raise OutOfBounds('mini-interpreter: `%s` reads element %d of an array of %d' % (e.text()[:40], i, b.get('count', 0)))
+                    return self.load(Ptr(b['items'].arr, b['items'].i + i))
+            vals = [self.ev(a, env) for a in ops_]
+            r = _vec2_op(name[len('operator'):], vals)
+            if r is not None:
+                return r
+            raise AnalysisBroken('mini-interpreter: operator call `%s`' % e.text()[:50])
+        if k == 'CXXMemberCallExpr' and (e.callee or '').startswith('gdstk::Vec2::') and e.child('obj') is not None:
+            o = self.ev(e.child('obj'), env)
+            args = [self.ev(a, env) for a in e.args]
+            m = e.callee.split('::')[-1]
+            if isinstance(o, Obj) and 'x' in o:
+                if m == 'cross' and len(args) == 1:
+                    return o['x'] * args[0]['y'] - o['y'] * args[0]['x']
+                if m == 'inner' and len(args) == 1:
+                    return o['x'] * args[0]['x'] + o['y'] * args[0]['y']
+                if m == 'length_sq' and not args:
+                    return o['x'] * o['x'] + o['y'] * o['y']
+                if m == 'ortho' and not args:
+                    return Obj(x=-o['y'], y=o['x'])
+            raise AnalysisBroken('mini-interpreter: Vec2 method `%s`' % e.text()[:50])
         if k in ('CallExpr', 'CXXMemberCallExpr'):
             args = [self.ev(a, env) for a in e.args]
+            self.cur_call = (e, env)           # a hook may ask for the object of a member call: self.call_object()
             r = self.hook(e.callee, args, e)
             if r is not None:
                 return r[0]
             g = [x for x in (self.db.fn(e.callee, required=False, all=True) or []) if x.body is not None] if e.callee else []
+            if len(g) > 1 and len({(x.file, x.line) for x in g}) == 1:
+                g = g[:1]           # an inline / template function seen in several units
+            if len(g) == 1 and k == 'CXXMemberCallExpr' and e.child('obj') is not None:
+                try:
+                    o_ = self.ev(e.child('obj'), env)
+                except AnalysisBroken:
+                    o_ = None
+                if isinstance(o_, Obj):
+                    en = {p['n']: (Obj(a) if isinstance(a, Obj) and '&' not in (p.get('t') or '') else a) for p, a in zip(g[0].params, args)}
+                    en['this'] = o_
+                    try:
+                        self.run(g[0].body, en)
+                    except Return as rr:
+                        return rr.v
+                    return None
             if len(g) == 1 and k == 'CallExpr':
                 en = {p['n']: a for p, a in zip(g[0].params, args)}
                 for p, a_node in zip(g[0].params, e.args):
@@ -318,6 +470,28 @@ class Mini:
                 return None
             raise AnalysisBroken('mini-interpreter: call of `%s`' % e.callee)
         raise AnalysisBroken('mini-interpreter: expression %s `%s`' % (k, e.text()[:50]))
+
+    def lval_obj(self, t, env):
+        """(struct object, field) for a member lvalue `o.f` / `p->f` / `this->f`, or None"""
+        if t is None or t.k != 'MemberExpr' or not t.n:
+            return None
+        b_ = t.child('base')
+        while b_ is not None and b_.k == 'MemberExpr' and not b_.n and b_.child('base') is not None:
+            b_ = b_.child('base')
+        try:
+            o_ = self.ev(b_, env)
+        except AnalysisBroken:
+            return None
+        if isinstance(o_, Ref):
+            o_ = o_.env.get(o_.name)
+        if isinstance(o_, Ptr):
+            o_ = self.load(o_)
+        return (o_, t.n) if isinstance(o_, Obj) else None
+
+    def call_object(self):
+        """the object a member call being hooked is made on"""
+        e, env = self.cur_call
+        return self.ev(e.child('obj'), env) if e.child('obj') is not None else None
 
     def load(self, p):
         if isinstance(p, Ref):
@@ -351,6 +525,9 @@ class Mini:
                             raise AnalysisBroken('mini-interpreter: array initialiser `%s`' % i_.text()[:40])
                         self.writable.add(id(arr))
                         env[v.n] = Ptr(arr, 0)
+                        continue
+                    if v.child('init') is None and self.obj_store and self.db.records.get((v.ct or v.t or '').replace('const ', '').strip()) is not None:
+                        env[v.n] = Obj()
                         continue
                     env[v.n] = self.ev(v.child('init'), env) if v.child('init') is not None else 0
         elif k == 'IfStmt':
